@@ -257,8 +257,14 @@ func c11run(r *ev.Run) {
 			atoms = []int{j / na, j % na}
 		}
 		for ctx := range c11ctx {
+			// the wrappers vary where the test sits in the condition, which the rewrite visits node by node whatever the
+			// regex is: the quick tier combines them with five representative contexts, the thorough tier with all
+			wraps := c11wrapN
+			if !th && !(ctx == 0 || ctx == 1 || ctx == 4 || ctx == 5 || ctx == 8) {
+				wraps = 1
+			}
 			for _, neg := range []bool{false, true} {
-				for w := 0; w < c11wrapN; w++ {
+				for w := 0; w < wraps; w++ {
 					run(c11Case{Atoms: atoms, Ctx: ctx, Neg: neg, Wrap: w, L: L2})
 				}
 			}
@@ -280,6 +286,6 @@ func c11run(r *ev.Run) {
 	r.Set("valid_regex_conditions", valid)
 	r.Set("conditions_rewritten", rewritten)
 	r.Set("candidate_strings_per_rewritten_condition", len(c11strings[L2]))
-	r.Rule = fmt.Sprintf("regex = concatenation of <=2 (thorough: <=3) atoms from %d inside each of %d anchor/flag contexts, both operators, 5 condition wrappers; each rewritten condition is evaluated before/after on every string of length <=%d over {a,b,c,A,\\n,x} plus every substituted literal and its neighbours. state = (regex, operator, wrapper); non-trivial = RewriteRegexConditions changed the condition", na, len(c11ctx), L2)
+	r.Rule = fmt.Sprintf("regex = concatenation of <=2 (thorough: <=3) atoms from %d inside each of %d anchor/flag contexts, both operators, 7 condition wrappers (quick tier: all 7 with five of the contexts, the bare test with the others); each rewritten condition is evaluated before/after on every string of length <=%d over {a,b,c,A,\\n,x} plus every substituted literal and its neighbours. state = (regex, operator, wrapper); non-trivial = RewriteRegexConditions changed the condition", na, len(c11ctx), L2)
 	r.Assumptions = []string{"Go's regexp is the matcher on both sides (the rewrite is compared with the regex it replaces, not with a third implementation)"}
 }
